@@ -192,11 +192,29 @@ func VerifScreenStateHash(s Screen) uint64 {
 		h ^= v
 		h *= 1099511628211
 	}
-	b := func(x bool) uint64 {
-		if x {
-			return 1
+	// flags are hashed by value whatever their type is (bool today; a refactoring to a
+	// counter or a bit set must not break the build of the checks)
+	b := func(x interface{}) uint64 {
+		switch v := x.(type) {
+		case bool:
+			if v {
+				return 1
+			}
+			return 0
+		case int:
+			return uint64(v)
+		case int32:
+			return uint64(v)
+		case uint32:
+			return uint64(v)
+		case uint8:
+			return uint64(v)
 		}
-		return 0
+		var hv uint64 = 1469598103934665603
+		for _, c := range []byte(fmt.Sprint(x)) {
+			hv = (hv ^ uint64(c)) * 1099511628211
+		}
+		return hv
 	}
 	add(uint64(t.w))
 	add(uint64(t.h))
